@@ -21,7 +21,21 @@ Independence monitors: every copy ever taken (SaveSolver+LoadSolver, dill, deepc
 to the end of the original's run and must still show the state it had; per boundary one copy is never advanced
 ("idle"), must not move while its siblings / the original run, and must still resume exactly after the original
 has finished; per boundary one copy is itself copied again through a second path (copy of a copy) and the
-second-generation copy is checked like a first-generation one, with its parent as its original."""
+second-generation copy is checked like a first-generation one, with its parent as its original.
+
+The run as ONE Solve() call (stages W / X): the uninterrupted run is a single `Solve(cost, termination, ExtraArgs,
+**keywords)` - solver-private settings (DE strategy / CrossProbability / ScalingFactor, Nelder-Mead radius / adaptive,
+Powell xtol / imax / direc), optionally penalty / constraints / monitors, given as KEYWORDS of that call and to nothing
+else.  At the end of EVERY generation a checkpoint is taken from inside the call (SaveSolver / dill / copy.deepcopy
+called from the callback, the periodic dump); each is restored and continued to termination by a BARE Solve() /
+Solve(callback) / loop over Step() under the saved random state and must reproduce the uninterrupted call generation
+by generation and in its final state.  X: the call is killed at one boundary (exception out of the callback) and the
+dead solver is saved / pickled / deep-copied / SHALLOW-copied afterwards.  Stages K: the shallow copy protocol
+(copy.copy / __copy__) in the Step()-driven run - the solver object is replaced by its shallow copy at every boundary
+(and before the first Step) / at one boundary; the continued copy must be the uninterrupted run and count what it
+evaluates.  Correspondence `sticky`: the REAL `_process_inputs` of the four solvers, called the way Step(**kw) and
+Solve(**kw) call it, interleaved with attribute assignments and pickle / copy round trips, against `deStepKw` /
+`deSolveKw` / `step2Kw` / `solve2Kw`; `alias` now also takes shallow copies (`shallowCopy`)."""
 import os, sys, io, time, json, copy, random as _random, tempfile, shutil, hashlib, contextlib, collections
 import numpy as np
 import common
@@ -30,7 +44,7 @@ import dsl, framework, leandrv, solvergen, solvermodel, trace
 from framework import Finding
 
 PID = "C06"
-MODULE = "MysticVerif.Props.C06"
+MODULE = "MysticVerif.Props.C06All"
 THEOREMS = ["MysticVerif.C06." + t for t in [
     "resume_equals_uninterrupted", "resume_equals_uninterrupted_de", "resume_twice_de", "de_step_congr",
     "de_snapshot_must_carry_best",
@@ -43,7 +57,12 @@ THEOREMS = ["MysticVerif.C06." + t for t in [
     "powellS_step_frame", "powellS_deepcopy_independent", "powellS_shared_direc_not_independent",
     "linked_counts", "copies_independent", "pickle_preserves_links", "pickle_copy_disjoint", "restored_counts_own",
     "deepcopy_as_implemented_unlinks", "deepcopy_copy_stops_counting", "deepcopy_stops_counting_witness",
-    "deepcopy_disjoint", "redecorate_relinks"]]
+    "deepcopy_disjoint", "redecorate_relinks",
+    "counts_iff_ctr_linked", "shallowcopy_keeps_counting", "shallowcopy_shares_the_counter",
+    "shallow_copy_private_counter_stops_counting", "shallow_copy_witness",
+    "solve_kwds_resume_de", "solve_kwds_resume_2", "de_writeback_must_be_the_setting_in_force",
+    "solve_kwds_custom_strategy_not_resumed", "solve_kwds_resume_de_repassed",
+    "steps_resume", "solve_resume", "solve_stable"]]
 
 PATHS = ("saveload", "dill", "deepcopy", "periodic")
 
@@ -56,30 +75,57 @@ KEY_PW_DIVERGE = "periodic/PowellDirectionalSolver/dump-taken-mid-iteration/resu
 # every call is attributed to the solver that is being advanced right now (ACTOR), whichever python object it is
 ACTOR = ["-"]
 CALLS = collections.Counter()
+FORM_HIST = collections.Counter()
 
 
 def _vec(x):
     return [float(v) for v in np.asarray(x, dtype=float).ravel()]
 
 
+class Runaway(BaseException):
+    """a continued solver that no longer stops where the uninterrupted run stopped (a lost limit) is cut off here"""
+
+
+CALL_LIMIT = [None]
+
+
 class CostFn(object):
     def __init__(self, cost_expr):
         self.kind = cost_expr[0]; self.e = cost_expr[1]
 
-    def __call__(self, x):
+    def __call__(self, x, *args):
         CALLS[(ACTOR[0], "cost")] += 1
+        if CALL_LIMIT[0] is not None and CALLS[(ACTOR[0], "cost")] > CALL_LIMIT[0]:
+            raise Runaway()
         xv = _vec(x)
+        shift = float(sum(args)) if args else 0.0      # ExtraArgs of the run: cost(x, *ExtraArgs) = cost(x) + sum(ExtraArgs)
         if self.kind == "scalar":
-            return dsl.ev(self.e, xv)
-        return np.array([dsl.ev(t, xv) for t in self.e])
+            return dsl.ev(self.e, xv) + shift if args else dsl.ev(self.e, xv)
+        v = np.array([dsl.ev(t, xv) for t in self.e])
+        return v + shift if args else v
 
 
 REF_COST = [None]
 
 
-def ref_cost(x):
+def ref_cost(x, *args):
     """a module-level function: dill pickles it BY REFERENCE, so `cost is solver._cost[1]` survives a restore"""
-    return REF_COST[0](x)
+    return REF_COST[0](x, *args)
+
+
+def own_strategy_a(inst, candidate):
+    """a user's OWN mutation strategy (no attribute of mystic.strategy): Rand1Exp under another name"""
+    import mystic.strategy as S
+    return S.Rand1Exp(inst, candidate)
+
+
+def own_strategy_b(inst, candidate):
+    import mystic.strategy as S
+    return S.Best1Bin(inst, candidate)
+
+
+OWN_STRATEGIES = {"own:Rand1Exp": own_strategy_a, "own:Best1Bin": own_strategy_b}
+W_STRATEGIES = ["Best1Bin", "Best1Exp", "Rand1Bin", "Rand1Exp", "RandToBest1Exp", "RandToBest1Bin", "Best2Exp", "Best2Bin", "Rand2Bin", "Rand2Exp"]
 
 
 class PenFn(object):
@@ -182,6 +228,44 @@ def gen_case(rng, tier):
         spec["xtol"] = rng.choice([1e-4, 1e-3])
     spec["seed"] = rng.randrange(2 ** 31)
     spec["solve_cut"] = rng.randrange(64); spec["solve_extra"] = rng.choice([1, 3, 6])
+    # ---------- appended draws (everything above is drawn as before: older replay coordinates regenerate the same run)
+    # stage W: the run is ONE Solve(cost, termination, ExtraArgs, **keywords) call, interrupted from inside
+    w = {"periodic": rng.random() < 0.35, "mode": rng.randrange(3), "via_kwds": rng.random() < 0.35,
+         "term_arg": rng.random() < 0.5, "extra": rng.choice([None, None, (0.5,), (1.0, -0.25)]), "rot": rng.randrange(6)}
+    kw = {}
+    if solver in ("DE", "DE2"):
+        names = [t for t in W_STRATEGIES if spec["npop"] >= 6 or "2" not in t]
+        r = rng.random()
+        if r < 0.12:
+            kw["strategy"] = rng.choice(sorted(OWN_STRATEGIES))
+        elif r < 0.94:
+            kw["strategy"] = rng.choice(names)
+        if rng.random() < 0.6:
+            kw["CrossProbability"] = rng.choice([0.9, 0.5, 1.0, 0.1, 0.45])
+        if rng.random() < 0.6:
+            kw["ScalingFactor"] = rng.choice([0.8, 0.5, 1.0, 0.6])
+    elif solver == "NM":
+        if rng.random() < 0.7:
+            kw["radius"] = rng.choice([0.05, 0.1, 0.25, 0.5])
+        if rng.random() < 0.5:
+            kw["adaptive"] = rng.random() < 0.6
+    else:
+        if rng.random() < 0.7:
+            kw["xtol"] = rng.choice([1e-4, 1e-3, 1e-2])
+        if rng.random() < 0.4:
+            kw["imax"] = rng.choice([500, 20, 6])
+        if rng.random() < 0.3:
+            d = spec["dim"]; kind = rng.choice(["scaled", "reversed", "upper"])
+            if kind == "scaled":
+                kw["direc"] = [[2.0 if i == j else 0.0 for j in range(d)] for i in range(d)]
+            elif kind == "reversed":
+                kw["direc"] = [[1.0 if i + j == d - 1 else 0.0 for j in range(d)] for i in range(d)]
+            else:
+                kw["direc"] = [[1.0 if j >= i else 0.0 for j in range(d)] for i in range(d)]
+    w["kw"] = kw
+    spec["w"] = w
+    # stages K: the shallow copy protocol (copy.copy) in a Step()-driven run
+    spec["copy_cut"] = rng.randrange(64); spec["copy_pre"] = rng.random() < 0.3
     return spec
 
 
@@ -228,8 +312,11 @@ def make_monitor(kind, tmp, tag):
     raise ValueError(kind)
 
 
-def build(spec, tmp, tag, savefile=None):
-    """a configured, never-stepped solver + the cost object the run is started with"""
+def build(spec, tmp, tag, savefile=None, defer=(), out=None):
+    """a configured, never-stepped solver + the cost object the run is started with.
+    defer: settings NOT installed by their Set* method but returned in `out` under the keyword `Solve` / `Step` accept
+    for them (penalty, constraints, EvaluationMonitor, StepMonitor) or left out (termination -> out['termination'])"""
+    out = {} if out is None else out
     from mystic.solvers import (DifferentialEvolutionSolver, DifferentialEvolutionSolver2,
                                 NelderMeadSimplexSolver, PowellDirectionalSolver)
     _random.seed(spec["seed"]); np.random.seed(spec["seed"] % (2 ** 31))
@@ -258,23 +345,42 @@ def build(spec, tmp, tag, savefile=None):
             kw["clip"] = clip
         s.SetStrictRanges(list(lo), list(hi), **kw)
     if spec.get("constraints") is not None:
-        s.SetConstraints(ConFn(spec["constraints"], bool(spec.get("inplace"))))
+        con = ConFn(spec["constraints"], bool(spec.get("inplace")))
+        if "constraints" in defer:
+            out["constraints"] = con
+        else:
+            s.SetConstraints(con)
+    pen = None
     if spec.get("penalty_mystic"):
         import mystic.penalty as P
         name, i, c, k = spec["penalty_mystic"]
-        s.SetPenalty(getattr(P, name)(CondFn(i, c), k=k)(zero_pen))
+        pen = getattr(P, name)(CondFn(i, c), k=k)(zero_pen)
     elif spec.get("penalty") is not None:
-        s.SetPenalty(PenFn(spec["penalty"]))
+        pen = PenFn(spec["penalty"])
+    if pen is not None:
+        if "penalty" in defer:
+            out["penalty"] = pen
+        else:
+            s.SetPenalty(pen)
     if spec.get("limits") is not None:
         s.SetEvaluationLimits(spec["limits"][0], spec["limits"][1])
     if spec.get("termination") is not None:
-        s.SetTermination(trace.make_termination(spec["termination"]))
+        if "termination" in defer:
+            out["termination"] = trace.make_termination(spec["termination"])
+        else:
+            s.SetTermination(trace.make_termination(spec["termination"]))
     if spec.get("reducer"):
         s.SetReducer(red_sum if spec["reducer"] == "sum" else red_max)
     if spec["evalmon"] != "Null":
-        s.SetEvaluationMonitor(make_monitor(spec["evalmon"], tmp, tag + "_e"))
+        if "monitors" in defer:
+            out["EvaluationMonitor"] = make_monitor(spec["evalmon"], tmp, tag + "_e")
+        else:
+            s.SetEvaluationMonitor(make_monitor(spec["evalmon"], tmp, tag + "_e"))
     if spec["stepmon"] != "default":
-        s.SetGenerationMonitor(make_monitor(spec["stepmon"], tmp, tag + "_s"))
+        if "monitors" in defer:
+            out["StepMonitor"] = make_monitor(spec["stepmon"], tmp, tag + "_s")
+        else:
+            s.SetGenerationMonitor(make_monitor(spec["stepmon"], tmp, tag + "_s"))
     if savefile is not None:
         s.SetSaveFrequency(spec["savefreq"], savefile)
     cost = CostFn(spec["cost"])
@@ -427,11 +533,23 @@ def make_copy(path, B, tmp, i, spec):
 def _make_copy(path, B, tmp, i, spec):
     import dill
     from mystic.solvers import LoadSolver
+    form = (spec["seed"] + i) % 3
     if path == "saveload":
+        # the three spellings of "save to a restart file, load it": SaveSolver(fn) + LoadSolver(fn); LoadSolver(_state=fn);
+        # SaveSolver() with no argument (writes to the file registered by the previous SaveSolver(fn))
         fn = os.path.join(tmp, "sl_%d.pkl" % i)
         B.SaveSolver(fn)
+        FORM_HIST["restore-form:saveload:%s" % ("SaveSolver(fn)+LoadSolver(fn)", "LoadSolver(_state=fn)", "SaveSolver()+LoadSolver(fn)")[form]] += 1
+        if form == 1:
+            return LoadSolver(_state=fn)
+        if form == 2:
+            os.remove(fn)
+            B.SaveSolver()
         return LoadSolver(fn)
     if path == "dill":
+        FORM_HIST["restore-form:dill:%s" % ("dumps+loads", "dill.copy")[form % 2]] += 1
+        if form % 2:
+            return dill.copy(B)
         return dill.loads(dill.dumps(B))
     if path == "deepcopy":
         return copy.deepcopy(B)
@@ -866,6 +984,13 @@ def run_case(spec, gen, hist, tier):
                 rq = pw_share_stage(spec, tmp, rec, kwall, SA, MA, H)
                 if rq:
                     requests.append(rq)
+
+            # ---------- K: the shallow copy protocol in the Step()-driven run
+            shallow_stage(spec, tmp, rec, kwall, SA, MA, F, H, chain=1)
+            shallow_stage(spec, tmp, rec, kwall, SA, MA, F, H, chain=0)
+
+            # ---------- W / X: the run as ONE Solve(cost, termination, ExtraArgs, **keywords) call, interrupted from inside
+            solve_stage(spec, tmp, tier, F, H)
     finally:
         shutil.rmtree(tmp, ignore_errors=True)
     for key, cnt in emitted.items():
@@ -874,6 +999,400 @@ def run_case(spec, gen, hist, tier):
     sample = {"spec": view(spec), "n_steps": n, "iterations_performed": performed, "first_stop": MA[first_stop] if first_stop is not None else None,
               "copies_that_performed_2+_iterations": state["continued"], "final_bestEnergy": unarr(SA[-1]["bestEnergy"])}
     return findings, requests, nontrivial, sample
+
+
+# ---------------------------------------------------------------- stages W / X: the run is ONE Solve() call
+KEY_OWN = "solve-run/%s/own-strategy-function/name-not-in-mystic.strategy/bare-resume-falls-back-to-Best1Bin"     # % solver type (F56)
+
+
+class Crash(Exception):
+    """raised by the harness callback: the process 'dies' at the end of a generation"""
+
+
+class WRec(object):
+    """the callback handed to Solve(): called at the end of every `_Step` (after the step record and the periodic dump,
+    before `Step` looks at the stop conditions); records the random state and the solver's state, lets `hook` take
+    checkpoints, and may kill the run"""
+
+    def __init__(self, s, hook=None, crash_at=None):
+        self.s = s; self.snaps = []; self.rs = []; self.hook = hook; self.crash_at = crash_at
+
+    def __call__(self, xk):
+        g = len(self.snaps)
+        self.rs.append(rng_state()); self.snaps.append(snap(self.s))
+        if self.hook is not None:
+            self.hook(g, self.s)
+        if self.crash_at is not None and g == self.crash_at:
+            raise Crash()
+
+
+def w_keywords(spec, only=None):
+    import mystic.strategy as S
+    kw = {}
+    for k, v in spec["w"]["kw"].items():
+        if only is not None and k not in only:
+            continue
+        if k == "strategy":
+            kw[k] = OWN_STRATEGIES[v] if v in OWN_STRATEGIES else getattr(S, v)
+        elif k == "direc":
+            kw[k] = [list(r) for r in v]
+        else:
+            kw[k] = v
+    return kw
+
+
+def w_start(spec, tmp, tag, periodic=False):
+    """a configured solver and the arguments of the ONE Solve() call that is its whole run: cost, termination, ExtraArgs
+    and keywords (solver-private settings; optionally penalty / constraints / monitors instead of their Set* methods)"""
+    w = spec["w"]; n = spec["n"]
+    defer = (("penalty", "constraints", "monitors") if w["via_kwds"] else ()) + (("termination",) if w["term_arg"] else ())
+    out = {}
+    s, cost = build(dict(spec, mode="none"), tmp, tag, savefile=os.path.join(tmp, "w_%s.pkl" % tag) if periodic else None,
+                    defer=defer, out=out)
+    g, e = spec["limits"] if spec.get("limits") is not None else (None, None)
+    s.SetEvaluationLimits(n if g is None else min(g, n), e)       # the run ends after at most n generations
+    term = out.pop("termination", None)
+    kw = w_keywords(spec); kw.update(out)
+    return s, cost, term, (tuple(w["extra"]) if w["extra"] else None), kw
+
+
+def w_drive(name, s, rs, fn):
+    """fn() as actor `name` under the random state rs -> (how it ended, real cost calls, d evaluations, d len(evalmon))"""
+    _random.setstate(rs[0]); np.random.set_state(rs[1])
+    ACTOR[0] = name
+    c0 = CALLS[(name, "cost")]; e0 = int(s.evaluations); m0 = len(s._evalmon)
+    end = None
+    _SINK.seek(0); _SINK.truncate()
+    try:
+        with contextlib.redirect_stdout(_SINK):
+            fn()
+    except Crash:
+        end = "crash"
+    except Runaway:
+        end = "runaway"
+    finally:
+        ACTOR[0] = "-"; CALL_LIMIT[0] = None
+    return end, CALLS[(name, "cost")] - c0, int(s.evaluations) - e0, len(s._evalmon) - m0
+
+
+def unrecorded(spec, s):
+    """which of the solver-private keywords given to Solve() the solver `s` does not show in its fields"""
+    out = []
+    for k, v in spec["w"]["kw"].items():
+        if k == "strategy":
+            name = OWN_STRATEGIES[v].__name__ if v in OWN_STRATEGIES else v
+            if getattr(s, "strategy", None) != name:
+                out.append(k)
+        elif k == "CrossProbability":
+            if s.probability != v:
+                out.append(k)
+        elif k == "ScalingFactor":
+            if s.scale != v:
+                out.append(k)
+        elif k in ("radius", "adaptive", "xtol", "imax"):
+            if getattr(s, k, None) != v:
+                out.append(k)
+    return out
+
+
+def w_check(spec, label, c, g, U, finalU, realU, rs, mode, F, H, kws=None, known_key=None, pskip=()):
+    """c was restored from a checkpoint taken at the end of generation g of the Solve()-driven run U; it is continued to
+    termination under the saved random state - mode 0: Solve(), 1: Solve(callback=recorder), 2: a loop over Step() - with
+    NO settings given again (kws: the one keyword re-passed inside a known-finding class) and must reproduce U"""
+    tag = "solve-run/%s/%s" % (label, type(c).__name__)
+    s0 = snap(c)
+    d0 = diff(U.snaps[g], s0, pskip)
+    if d0:
+        F("monitor", tag + "/restored-state-differs", "generation %d of a Solve()-driven run: the restored solver differs from the interrupted one in %s" % (g, d0),
+          path=label, cut=g, fields=d0, detail=excerpt(U.snaps[g], s0, d0))
+        return False
+    missing = unrecorded(spec, c)
+    name = "W:%s@%d" % (label, g)
+    kws = kws or {}
+    steps = []
+    cb = WRec(c)
+    if mode == 0:
+        fn = lambda: c.Solve(**kws)
+    elif mode == 1:
+        fn = lambda: c.Solve(callback=cb, **kws)
+    else:
+        def fn():
+            for _ in range(len(U.snaps) + 4):
+                msg = c.Step(**kws)
+                steps.append((snap(c), msg))
+                if msg:
+                    break
+    CALL_LIMIT[0] = CALLS[(name, "cost")] + 20 * realU + 2000
+    try:
+        end, real, dev, dmon = w_drive(name, c, rs, fn)
+    except Exception as exc:
+        F("monitor", tag + "/resume-raises/%s" % type(exc).__name__, "generation %d: continuing the restored solver raised %r" % (g, exc), path=label, cut=g, mode=mode)
+        return False
+    sc = snap(c)
+    skip = pskip
+    how = ("Solve()", "Solve(callback=..)", "a loop over Step()")[mode]
+    if not (dev == real and (sc["evalmon_x"] is None or dmon == real)):
+        if "deepcopy" in label and dev in (0, real) and dmon in (0, real):
+            F("monitor", KEY_F5, "generation %d of a Solve()-driven run, %s of the deep copy: %d real cost calls, evaluations grew by %d, evaluation monitor by %d" % (g, how, real, dev, dmon), path=label, cut=g)
+            skip = pskip + COUNT_FIELDS + ("maxfun",)
+            if isinstance(finalU["maxfun"], int) and finalU["evaluations"] >= finalU["maxfun"]:
+                H("deepcopy-unlinked:solve-run-stopped-by-the-counter:not-compared")
+                return True
+        else:
+            F("monitor", tag + "/copy-does-not-count-its-own-evaluations", "generation %d, %s: %d real cost calls, evaluations grew by %d, evaluation monitor by %d"
+              % (g, how, real, dev, dmon), path=label, cut=g, mode=mode)
+    suffix = "/keywords-of-Solve-not-in-the-restart-file:" + "+".join(missing) if missing else ""
+    key = known_key or (tag + "/resumed-run-diverges" + suffix)
+    given = {k: v for k, v in spec["w"]["kw"].items() if k != "direc"}
+    if end == "runaway" or (mode == 2 and not (steps and steps[-1][1])):
+        F("monitor", known_key or (tag + "/resumed-run-does-not-stop" + suffix), "generation %d: the restored solver continued by %s is still running after %d cost calls (the uninterrupted run made %d in all)"
+          % (g, how, real, realU), path=label, cut=g, mode=mode, keywords=given)
+        return False
+    seq = cb.snaps if mode == 1 else [sn for sn, msg in steps if not msg]
+    for j, sn in enumerate(seq):
+        t = g + 1 + j
+        if t >= len(U.snaps):
+            F("monitor", key, "checkpoint of generation %d, continued by %s: the restored solver performs generation %d, the uninterrupted run ended after generation %d"
+              % (g, how, t, len(U.snaps) - 1), path=label, cut=g, mode=mode, keywords=given)
+            return False
+        dj = diff(U.snaps[t], sn, skip)
+        if dj:
+            F("monitor", key, "checkpoint of generation %d of Solve(cost%s), continued by %s: at generation %d %s differ from the uninterrupted run"
+              % (g, "".join(", %s=.." % k for k in spec["w"]["kw"]), how, t, dj), path=label, cut=g, mode=mode, fields=dj, keywords=given,
+              detail=excerpt(U.snaps[t], sn, dj))
+            return False
+    dj = diff(finalU, sc, skip)
+    if dj:
+        F("monitor", key, "checkpoint of generation %d of Solve(cost%s), continued by %s to termination: %s differ from the final state of the uninterrupted run"
+          % (g, "".join(", %s=.." % k for k in spec["w"]["kw"]), how, dj), path=label, cut=g, mode=mode, fields=dj, keywords=given,
+          detail=excerpt(finalU, sc, dj))
+        return False
+    H("solve-run:resumed:%s:%s" % (label, ("Solve", "Solve+callback", "Step-loop")[mode]))
+    return True
+
+
+def solve_stage(spec, tmp, tier, F, H):
+    """W: the uninterrupted run is ONE call Solve(cost, termination, ExtraArgs, **keywords); at the end of EVERY generation
+    checkpoints are taken from inside (SaveSolver / dill / copy.deepcopy called by the callback, the periodic dump); each
+    boundary's checkpoint is restored and continued to termination WITHOUT giving any setting again.
+    X: the Solve() call is killed at one boundary (exception out of the callback); the dead solver object is saved /
+    pickled / deep-copied / shallow-copied afterwards and each copy is continued the same way."""
+    import dill
+    from mystic.solvers import LoadSolver
+    w = spec["w"]; solver = spec["solver"]
+    own = w["kw"].get("strategy") in OWN_STRATEGIES
+    try:
+        sU, cost, term, extra, kw = w_start(spec, tmp, "U")
+        U = WRec(sU)
+        end, realU, _, _ = w_drive("U", sU, rng_state(), lambda: sU.Solve(cost, term, ExtraArgs=extra, callback=U, **kw))
+    except Exception as exc:
+        H("solve-run:reference-raised:%s" % type(exc).__name__)
+        return
+    if end:
+        H("solve-run:reference-%s" % end)
+        return
+    finalU = snap(sU); NU = len(U.snaps)
+    if any(np.isnan(np.frombuffer(sn["popEnergy"][1], dtype=float)).any() for sn in U.snaps):
+        H("solve-run:nan-run-skipped")
+        return
+    H("solve-run:generations:%s" % (NU if NU < 4 else "4+"))
+    for k in sorted(w["kw"]):
+        H("solve-run:keyword:%s%s" % (k, (":" + str(w["kw"][k])) if k == "strategy" else ""))
+    H("solve-run:ExtraArgs:%s" % (len(extra) if extra else 0)); H("solve-run:settings-via-keywords:%s" % bool(w["via_kwds"]))
+    H("solve-run:termination-as-argument:%s" % bool(w["term_arg"] and term is not None)); H("solve-run:periodic:%s" % bool(w["periodic"]))
+    if NU < 2:
+        return
+    # ----- V: the same call, checkpointed from inside at the end of every generation
+    ck = {}; last = [None]
+    pfile = os.path.join(tmp, "w_V.pkl")
+
+    order_all = ("saveload", "periodic", "dill", "deepcopy")
+    mine3 = ("periodic" if w["periodic"] else "saveload", "dill", "deepcopy")
+    # every boundary of the call is an interruption point (runs of up to 24 generations; longer ones - thorough tier only -
+    # every 2nd / 3rd boundary: the continuations cost O(generations^2)); every checkpoint kind at every boundary in the
+    # thorough tier for runs of up to 14 generations, one rotating kind otherwise
+    stride = 1 if NU <= 24 else (2 if NU <= 40 else 3)
+    every_kind = tier != "quick" and NU <= 14
+    H("solve-run:boundaries:%s" % ("every" if stride == 1 else "every-%d" % stride))
+
+    def hook(g, s):
+        # quick tier: ONE checkpoint per generation, its kind rotating (a periodic dump exists only at multiples of the save
+        # frequency: dill takes its turn otherwise); thorough: every kind at every generation
+        d = {}
+        fresh_dump = None
+        if w["periodic"] and os.path.exists(pfile):       # did THIS generation write the periodic file? (looked at every generation)
+            data = open(pfile, "rb").read(); h = hashlib.sha1(data).digest()
+            if h != last[0]:
+                last[0] = h; fresh_dump = data
+        if g % stride:
+            ck[g] = d
+            return
+        todo = list(mine3) if every_kind else [mine3[(w["rot"] + g) % 3]]
+        for path in todo:
+            try:
+                if path == "dill":
+                    d[path] = dill.dumps(s)
+                elif path == "deepcopy":
+                    d[path] = copy.deepcopy(s)
+                elif path == "saveload":
+                    fn = os.path.join(tmp, "w_sl.pkl")
+                    s.SaveSolver(fn)
+                    d[path] = open(fn, "rb").read()    # (the solver writes to its registered file again when it stops)
+                else:
+                    if solver != "Powell" and fresh_dump is not None:   # (Powell's periodic file is a mid-iteration state: F32, stage P)
+                        d[path] = fresh_dump
+                    elif "dill" not in todo:
+                        d["dill"] = dill.dumps(s)
+            except Exception as exc:
+                F("monitor", "%s/%s/copy-raises/%s" % (path, type(s).__name__, type(exc).__name__), "generation %d, from the callback of Solve(): %r" % (g, exc), path=path, cut=g)
+        ck[g] = d
+    pskip = ("saveiter",) if w["periodic"] else ()      # (only the checkpointed run V has the periodic dump switched on)
+    try:
+        sV, cost, term, extra, kw = w_start(spec, tmp, "V", periodic=w["periodic"])
+        V = WRec(sV, hook)
+        end, _, _, _ = w_drive("V", sV, rng_state(), lambda: sV.Solve(cost, term, ExtraArgs=extra, callback=V, **kw))
+    except Exception as exc:
+        F("monitor", "saving-perturbs-the-original/%s/inside-Solve/raises-%s" % (type(sU).__name__, type(exc).__name__), "the run checkpointed from its callback raised %r" % (exc,))
+        return
+    finalV = snap(sV)
+    bad = next((g for g in range(min(NU, len(V.snaps))) if diff(U.snaps[g], V.snaps[g], pskip)), None)
+    if end or len(V.snaps) != NU or bad is not None or diff(finalU, finalV, pskip):
+        dd = diff(U.snaps[bad], V.snaps[bad], pskip) if bad is not None else diff(finalU, finalV, pskip)
+        F("monitor", "saving-perturbs-the-original/%s/inside-Solve" % type(sU).__name__, "a Solve() run that is saved / pickled / deep-copied from its callback at every generation differs from the untouched run: %s generations vs %s, first difference at generation %s in %s"
+          % (len(V.snaps), NU, bad, dd), fields=dd)
+        return
+    bare_own_done = False
+    for g in range(NU - 1):
+        picks = [p_ for p_ in order_all if p_ in ck.get(g, {})]
+        for k, path in enumerate(picks):
+            payload = ck[g][path]
+            try:
+                with contextlib.redirect_stdout(_SINK):
+                    if path == "dill":
+                        c = dill.loads(payload)
+                    elif path == "deepcopy":
+                        c = payload
+                    else:
+                        mine = os.path.join(tmp, "w_%s_%d.pkl" % (path, g))
+                        with open(mine, "wb") as f:
+                            f.write(payload)
+                        c = LoadSolver(mine)
+            except Exception as exc:
+                F("monitor", "%s/%s/copy-raises/%s" % (path, type(sU).__name__, type(exc).__name__), "generation %d of a Solve()-driven run: restoring raised %r" % (g, exc), path=path, cut=g)
+                continue
+            mode = (w["mode"] + g + k) % 3
+            if own:
+                # inside the known class F56 the strongest true statement: with the SAME function handed over again the
+                # resumed run is exact; the bare continuation is tried once per case and reported under the known key
+                if not bare_own_done and path != "deepcopy" and c.strategy == OWN_STRATEGIES[w["kw"]["strategy"]].__name__:
+                    bare_own_done = True
+                    ok = w_check(spec, path, dill.loads(dill.dumps(c)), g, U, finalU, realU, V.rs[g], mode, F, H, known_key=KEY_OWN % type(c).__name__, pskip=pskip)
+                    H("solve-run:own-strategy:bare-resume-%s" % ("agrees" if ok else "differs"))
+                w_check(spec, path + ":strategy-given-again", c, g, U, finalU, realU, V.rs[g], mode, F, H, kws=w_keywords(spec, only=("strategy",)), pskip=pskip)
+            else:
+                w_check(spec, path, c, g, U, finalU, realU, V.rs[g], mode, F, H, pskip=pskip)
+    # ----- X: the call is killed at one boundary; the dead solver object is copied afterwards
+    m = spec["solve_cut"] % (NU - 1)
+    try:
+        sX, cost, term, extra, kw = w_start(spec, tmp, "X")
+        X = WRec(sX, crash_at=m)
+        end, _, _, _ = w_drive("X", sX, rng_state(), lambda: sX.Solve(cost, term, ExtraArgs=extra, callback=X, **kw))
+    except Exception as exc:
+        H("solve-run:crash-run-raised:%s" % type(exc).__name__)
+        return
+    at_crash = snap(sX)
+    if end != "crash" or diff(U.snaps[m], at_crash):
+        H("solve-run:crash-run-differs-from-the-reference")
+        return
+    rsX = X.rs[m]
+    again = w_keywords(spec, only=("strategy",)) if own else None
+    sfx = ":strategy-given-again" if own else ""
+    for k, path in enumerate(("saveload", "dill", "deepcopy")):
+        _random.setstate(rsX[0]); np.random.set_state(rsX[1])
+        try:
+            c = make_copy(path, sX, tmp, 7000 + m, spec)
+        except Exception as exc:
+            F("monitor", "%s/%s/copy-raises/%s" % (path, type(sX).__name__, type(exc).__name__), "after a Solve() call died at generation %d: %r" % (m, exc), path=path, cut=m)
+            continue
+        w_check(spec, "crash+" + path + sfx, c, m, U, finalU, realU, rsX, (w["mode"] + k) % 3, F, H, kws=again)
+    dd = diff(at_crash, snap(sX))
+    if dd:
+        F("monitor", "solve-run/%s/not-independent/original-changed-by-copy" % type(sX).__name__, "continuing the copies of a solver whose Solve() call died at generation %d changed the dead solver's %s" % (m, dd), cut=m, fields=dd)
+        return
+    # the shallow copy protocol: the copy is continued IN PLACE of the original (which is dropped)
+    _random.setstate(rsX[0]); np.random.set_state(rsX[1])
+    try:
+        c = copy.copy(sX) if spec["seed"] % 2 else sX.__copy__()
+    except Exception as exc:
+        F("monitor", "copy/%s/copy-raises/%s" % (type(sX).__name__, type(exc).__name__), "after a Solve() call died at generation %d: %r" % (m, exc), path="copy", cut=m)
+        return
+    X.s = None; del sX
+    w_check(spec, "crash+copy" + sfx, c, m, U, finalU, realU, rsX, (w["mode"] + 3) % 3, F, H, kws=again)
+
+
+# ---------------------------------------------------------------- stages K: copy.copy in a Step()-driven run
+def shallow_stage(spec, tmp, rec, kwall, SA, MA, F, H, chain):
+    """the run of stage A, but the solver object is replaced by its SHALLOW copy (copy.copy / __copy__; the original is
+    dropped) - chain: at every generation boundary (and, for some runs, before the first Step); else: at one boundary.
+    The continued copy must be the uninterrupted run, and must count the evaluations it performs."""
+    n = spec["n"]
+    s, cost = build(spec, tmp, "K%d" % chain)
+    K = Actor("K%d" % chain, s, rng_state(), (cost,))
+    tag = "copy/%s" % type(s).__name__
+    m = spec["copy_cut"] % max(n - 1, 1)
+    copied = False
+
+    def take(i):
+        _random.setstate(K.rs[0]); np.random.set_state(K.rs[1])
+        before = snap(K.s)
+        try:
+            c = copy.copy(K.s) if (spec["seed"] + i) % 2 else K.s.__copy__()
+        except Exception as exc:
+            F("monitor", tag + "/copy-raises/%s" % type(exc).__name__, "cut %d: %r" % (i, exc), path="copy", cut=i)
+            return False
+        finally:
+            K.rs = rng_state()
+        dd = diff(before, snap(c))
+        if dd:
+            F("monitor", tag + "/restored-state-differs", "cut %d: the shallow copy differs from the original in %s" % (i, dd), path="copy", cut=i, fields=dd, detail=excerpt(before, snap(c), dd))
+            return False
+        K.s = c
+        if i >= 0:
+            K.cost_args = copy_cost_args(spec, c)
+        return True
+    if chain and spec.get("copy_pre"):
+        if not take(-1):
+            return
+        copied = True; H("shallow-copy:before-the-first-Step")
+    for i in range(n):
+        kw = dict(kwall)
+        if i == 0:
+            kw.update(first_kwds(spec))
+        try:
+            r = advance(K, rec, kw)
+        except Exception as exc:
+            F("monitor", tag + "/resume-raises/%s" % type(exc).__name__, "Step %d of a run continued through copy.copy raised %r" % (i + 1, exc), path="copy", cut=i)
+            return
+        sk = snap(K.s)
+        if copied and not (r["devals"] == r["real"] and (sk["evalmon_x"] is None or r["dmon"] == r["real"])):
+            F("monitor", tag + "/copy-does-not-count-its-own-evaluations", "Step %d, made by a shallow copy of the solver: %d real cost calls, evaluations grew by %d, evaluation monitor by %d"
+              % (i + 1, r["real"], r["devals"], r["dmon"]), path="copy", cut=i, chain=bool(chain))
+        dj = diff(SA[i], sk)
+        if dj or r["msg"] != MA[i]:
+            if not copied:
+                H("shallow-copy:run-differs-before-any-copy")
+                return
+            F("monitor", tag + "/resume-diverges", "Step %d of the run continued through copy.copy (%s): %s differ from the uninterrupted run%s"
+              % (i + 1, "a copy at every boundary" if chain else "one copy, after Step %d" % (m + 1), dj, "" if r["msg"] == MA[i] else "; returned %r, uninterrupted %r" % (r["msg"], MA[i])),
+              path="copy", cut=i, fields=dj, detail=excerpt(SA[i], sk, dj), chain=bool(chain))
+            return
+        if i == n - 1:
+            break
+        if chain or i == m:
+            if not take(i):
+                return
+            copied = True
+    H("shallow-copy:%s" % ("copied-at-every-boundary" if chain else "copied-at-one-boundary"))
 
 
 # ---------------------------------------------------------------- Lean correspondence: the model restarted from the restored solver's snapshot
@@ -1369,6 +1888,12 @@ def alias_case(rng, hist):
                     fn = os.path.join(tmp, "a%d.pkl" % len(ops))
                     s.SaveSolver(fn); c = LoadSolver(fn)
                 objs.append(c); ops.append("(pickle %d)" % i)
+            elif k < 0.88 and len(objs) < 6:
+                # the shallow copy protocol: the copy's attributes ARE the original's objects (counter list, monitor,
+                # decorated objective); it is linked iff the original is, and the two count together
+                c = copy.copy(s) if rng.random() < 0.5 else s.__copy__()
+                objs.append(c); ops.append("(shallow %d)" % i)
+                hist["alias:shallow-copy"] = hist.get("alias:shallow-copy", 0) + 1
             elif len(objs) < 6:
                 c = copy.deepcopy(s)
                 lb = linked_bits(c)
@@ -1409,6 +1934,152 @@ def alias_case(rng, hist):
     if not probe:
         hist["alias:introspection-unavailable"] = hist.get("alias:introspection-unavailable", 0) + 1
     return line, compare, {"which": "alias", "ops": ops}
+
+
+STICKY_NAMES = ["Best1Bin", "Best1Exp", "Rand1Bin", "Rand1Exp", "RandToBest1Exp", "RandToBest1Bin", "Best2Exp", "Best2Bin", "Rand2Bin", "Rand2Exp"]
+STICKY_OWN = [own_strategy_a, own_strategy_b]
+
+
+def sticky_case(rng, hist):
+    """the solver-private settings a solver accepts as keywords of Solve() / Step() (DE: strategy, CrossProbability,
+    ScalingFactor; Nelder-Mead: radius, adaptive; Powell: xtol, imax): random sequences of the REAL `_process_inputs` -
+    called the way `Step(**kw)` and `Solve(**kw)` call it (Solve: once with the keywords, then once per generation with the
+    `settings` dict it got back) -, plain attribute assignments and pickle / copy round trips of the solver, against
+    `deStepKw` / `deSolveKw` / `step2Kw` / `solve2Kw` of Model/Checkpoint.lean: the fields after every op and the settings
+    every generation of that op would be made with"""
+    import dill
+    import mystic.strategy as S
+    from mystic.solvers import (DifferentialEvolutionSolver, DifferentialEvolutionSolver2, NelderMeadSimplexSolver,
+                                PowellDirectionalSolver, LoadSolver)
+    kind = rng.choice(["DE", "DE2", "NM", "Powell", "DE"])
+    de = kind in ("DE", "DE2")
+    tmp = tempfile.mkdtemp(prefix="c06s_")
+    nK = len(STICKY_NAMES)
+
+    def sid(name):
+        if name in STICKY_NAMES:
+            return STICKY_NAMES.index(name)
+        own = [f.__name__ for f in STICKY_OWN]
+        return nK + own.index(name) if name in own else 10 ** 6
+
+    def sfun(i):
+        return getattr(S, STICKY_NAMES[i]) if i < nK else STICKY_OWN[i - nK]
+    fa, fb = ("radius", "adaptive") if kind == "NM" else ("xtol", "imax")
+    va = [0.05, 0.1, 0.25, 0.5] if kind == "NM" else [1e-4, 1e-3, 1e-2]
+    vb = [False, True] if kind == "NM" else [500, 20, 6]
+    try:
+        if kind == "DE":
+            s = DifferentialEvolutionSolver(2, 6)
+        elif kind == "DE2":
+            s = DifferentialEvolutionSolver2(2, 6)
+        elif kind == "NM":
+            s = NelderMeadSimplexSolver(2)
+        else:
+            s = PowellDirectionalSolver(2)
+        if de:
+            stored = "(stored %d %s %s)" % (sid(s.strategy), f2b(s.probability), f2b(s.scale))
+        else:
+            stored = "(stored %s %s)" % (f2b(float(getattr(s, fa))), f2b(float(getattr(s, fb))))
+        ops = []; obs = []
+
+        def opt(v, enc):
+            return "none" if v is None else enc(v)
+
+        def draw_kw():
+            if de:
+                r = rng.random()
+                si = None if r < 0.35 else (nK + rng.randrange(len(STICKY_OWN)) if r < 0.45 else rng.randrange(nK))
+                c = rng.choice([None, None, 0.9, 0.5, 0.1, 1.0]); f = rng.choice([None, None, 0.8, 0.5, 0.6])
+                kw = {}
+                if si is not None:
+                    kw["strategy"] = sfun(si)
+                if c is not None:
+                    kw["CrossProbability"] = c
+                if f is not None:
+                    kw["ScalingFactor"] = f
+                return kw, "%s %s %s" % (opt(si, str), opt(c, f2b), opt(f, f2b))
+            a = rng.choice([None] + va); b = rng.choice([None] + vb)
+            kw = {}
+            if a is not None:
+                kw[fa] = a
+            if b is not None:
+                kw[fb] = b
+            return kw, "%s %s" % (opt(a, lambda v: f2b(float(v))), opt(b, lambda v: f2b(float(v))))
+
+        def used(settings):
+            if de:
+                return (sid(getattr(settings["strategy"], "__name__", "?")), f2b(s.probability), f2b(s.scale))
+            return (f2b(float(settings[fa])), f2b(float(settings[fb])))
+
+        def fields():
+            if de:
+                return (sid(s.strategy), f2b(s.probability), f2b(s.scale))
+            return (f2b(float(getattr(s, fa))), f2b(float(getattr(s, fb))))
+        for _ in range(rng.randint(3, 9)):
+            k = rng.random()
+            if k < 0.30:
+                kw, sx = draw_kw()
+                st = s._process_inputs(dict(kw))                 # what Step(**kw) -> _Step(**kw) does first
+                ops.append("(step %s)" % sx); obs.append((fields(), [used(st)]))
+            elif k < 0.60:
+                kw, sx = draw_kw(); m = rng.randint(0, 3)
+                settings = s._process_inputs(dict(kw))           # Solve(**kw): abstract_solver.py l.1169
+                u = []
+                for _ in range(m):                               # ... then Step(**settings) per generation (l.1131)
+                    st = s._process_inputs(dict(settings))
+                    u.append(used(st))
+                ops.append("(solve %s %d)" % (sx, m)); obs.append((fields(), u))
+            elif k < 0.72:
+                if de:
+                    si = rng.choice([None, rng.randrange(nK)]); c = rng.choice([None, 0.9, 0.3]); f = rng.choice([None, 0.8, 0.7])
+                    if si is not None:
+                        s.strategy = STICKY_NAMES[si]
+                    if c is not None:
+                        s.probability = c
+                    if f is not None:
+                        s.scale = f
+                    ops.append("(set %s %s %s)" % (opt(si, str), opt(c, f2b), opt(f, f2b)))
+                else:
+                    a = rng.choice([None] + va); b = rng.choice([None] + vb)
+                    if a is not None:
+                        setattr(s, fa, a)
+                    if b is not None:
+                        setattr(s, fb, b)
+                    ops.append("(set %s %s)" % (opt(a, lambda v: f2b(float(v))), opt(b, lambda v: f2b(float(v)))))
+                obs.append((fields(), []))
+            else:
+                how = rng.choice(["dill", "saveload", "deepcopy", "copy"])
+                with contextlib.redirect_stdout(_SINK):
+                    if how == "dill":
+                        s = dill.loads(dill.dumps(s))
+                    elif how == "saveload":
+                        fn = os.path.join(tmp, "s%d.pkl" % len(ops))
+                        s.SaveSolver(fn); s = LoadSolver(fn)
+                    elif how == "deepcopy":
+                        s = copy.deepcopy(s)
+                    else:
+                        s = copy.copy(s)
+                ops.append("(pickle)"); obs.append((fields(), []))
+                hist["sticky:restore:%s" % how] = hist.get("sticky:restore:%s" % how, 0) + 1
+    finally:
+        shutil.rmtree(tmp, ignore_errors=True)
+    line = "C06 sticky (solver %s) (known %d) %s (ops (%s))" % ("de" if de else "two", nK, stored, " ".join(ops))
+
+    def compare(reply):
+        r = parse_reply(reply)
+        if r[0] != "ok" or len(r[1]["states"]) != len(obs):
+            return [("sticky/model-reply", "model replied %r" % (reply[:200],))]
+        for j, (m, (fld, u)) in enumerate(zip(r[1]["states"], obs)):
+            nf = 3 if de else 2
+            got_f = tuple(int(t) if (de and q == 0) else t for q, t in enumerate(m[:nf]))
+            got_u = [tuple(int(t) if (de and q == 0) else t for q, t in enumerate(e)) for e in m[nf]]
+            if got_f != tuple(fld) or got_u != [tuple(e) for e in u]:
+                names = ("strategy, probability, scale" if de else "%s, %s" % (fa, fb))
+                return [("sticky/%s/diverges" % kind, "after op %d %s: model fields (%s) = %r, settings per generation %r; real solver %r, %r  [all ops: %s]"
+                         % (j, ops[j], names, got_f, got_u, tuple(fld), u, " ".join(ops)))]
+        return []
+    hist["sticky:%s" % kind] = hist.get("sticky:%s" % kind, 0) + 1
+    return line, compare, {"which": "sticky", "ops": ops}
 
 
 def pw_reply_stats(rep, line):
@@ -1456,10 +2127,16 @@ def run_shard(pid, seed, shard, ncases, tier, extra):
         findings += fs; requests += rq; nontrivial += nt
         if sample and len(samples) < 2 and nt:
             samples.append(sample)
+    for k_, v_ in FORM_HIST.items():
+        hist[k_] = hist.get(k_, 0) + v_
+    FORM_HIST.clear()
     if only is None:
         for k in range(max(4, ncases)):
             rng = case_rng(pid + "/alias", seed, shard, k)
             requests.append(alias_case(rng, hist))
+        for k in range(max(6, ncases)):
+            rng = case_rng(pid + "/sticky", seed, shard, k)
+            requests.append(sticky_case(rng, hist))
     lines = [r[0] for r in requests]
     replies = leandrv.run_driver(lines) if lines else []
     for (line, cmp, meta), rep in zip(requests, replies):
@@ -1490,9 +2167,9 @@ def main(tier, seed):
     t0 = time.time()
     proof = framework.proof_stage(PID, MODULE, THEOREMS, tier)
     if tier == "quick":
-        nshards, per, budget = 16, 26, 44
+        nshards, per, budget = 16, 26, 36
     else:
-        nshards, per, budget = 64, 24, 150
+        nshards, per, budget = 64, 24, 105
     run = framework.run_shards("c06", "run_shard", PID, seed, nshards, per, tier, extra={"budget": budget})
 
     def search_more():
@@ -1508,19 +2185,27 @@ def main(tier, seed):
             "own snapshot after the copy's first Step and after its last; every copy stays alive until the original has finished and must not have moved; one never-advanced "
             "copy per boundary (rotating path) must not move and must resume exactly afterwards; one copy per boundary is copied again (9 path pairs rotating) and the "
             "second-generation copy is checked the same way. Powell cases additionally: three objects (run, copy, deep copy) stepped in a generated order (pw-share). "
+            "Every case additionally: (K) the Step()-driven run with the solver object replaced by its shallow copy (copy.copy / __copy__) at every boundary "
+            "(30%%: also before the first Step) and at one boundary; (W) the run as ONE Solve(cost, termination | SetTermination, ExtraArgs 0-2, **keywords) call "
+            "with solver-private keywords (DE: 10 module strategies + 2 own strategy functions, CrossProbability, ScalingFactor; NM: radius, adaptive; Powell: xtol, imax, "
+            "direc), 35%%: penalty / constraints / monitors as keywords instead of Set*, 35%%: periodic dump on; at the end of EVERY generation one checkpoint from inside the call "
+            "(rotating: SaveSolver | periodic dump, dill, deepcopy; thorough, runs of up to 14 generations: all three; runs longer than 24 generations: every 2nd / 3rd generation), restored and continued to termination by bare Solve() / Solve(callback) / Step() loop "
+            "(rotating), compared generation by generation and at the end; (X) the call killed at one boundary, the dead solver saved / pickled / deep-copied / shallow-copied and "
+            "each copy continued the same way. "
             "non-trivial = at least 3 iterations really ran and at least one copy performed >= 2 further real iterations." % (12 if tier == "quick" else 60))
     tb = ["Lean 4.33 kernel; axioms per theorem under coverage.theorems (subset of propext, Classical.choice, Quot.sound)",
           "pickling itself (dill, copy.deepcopy, file IO) is NOT modelled: the clause 'a restore gives back the saved state' is checked by the monitor only",
           "Model/Checkpoint.lean / Model/PowellResume.lean snapshot records + model S are tied to /repo by restarting the model from the snapshot read off the restored REAL solver (histogram model:de-resume / nm-resume / ctl-resume / pw-resume*)",
           "Powell: Brent's line search is a recorded oracle (which points it evaluated, which it returned); everything else of _Step is recomputed by PowellS.stepAt from the PwSnap alone; the mid-iteration periodic dump is PowellS.midDump (model:pw-dump)",
           "PowellS.shallowCopyObj (two objects sharing one direction-set array) is the hypothesis of the witness powellS_shared_direc_not_independent only: object identity inside _Step is not observable through the copies the property talks about, so its agreement with the code is counted (pw-share:(informational)...) and never a verdict",
-          "the aliasing model (heap of counter / monitor cells) is tied to /repo by random decorate/call/pickle/deepcopy sequences on real solver objects (histogram model:alias)",
+          "the aliasing model (heap of counter / monitor cells) is tied to /repo by random decorate/call/pickle/deepcopy/copy.copy sequences on real solver objects (histogram model:alias)",
+          "the keyword-settings model (DESet.process / Set2.process, deStepKw / deSolveKw / step2Kw / solve2Kw) is tied to /repo by random sequences of the real _process_inputs called as Step(**kw) and Solve(**kw) call it, attribute assignments and pickle / copy round trips (histogram model:sticky); that Solve hands `settings` to every Step and Step hands its keywords to _process_inputs is read off abstract_solver.py l.1131 / l.1104 and exercised end to end by stage W only",
           "DE trial vectors are recorded from the real strategy",
           "attribution of cost calls to the solver being advanced is by a harness-global actor name (single-threaded runs)"]
     assumptions = ["cost / penalty / constraints are deterministic picklable callables (dill by value or by reference)",
                    "the random state restored with a copy is the state at the moment of the save (python random + numpy.random)",
                    "NaN energies excluded (such runs are skipped and counted)"]
-    extra_cov = {"exhaustive": True, "exhaustive_over": "generation boundaries of each run x {SaveSolver+LoadSolver, dill, deepcopy, every periodic dump written}"}
+    extra_cov = {"exhaustive": True, "exhaustive_over": "generation boundaries of each Step()-driven run x {SaveSolver+LoadSolver, dill, deepcopy, every periodic dump written, copy.copy (chain)}; generation boundaries of each Solve()-driven run of up to 24 generations (longer, thorough only: every 2nd / 3rd) x one rotating checkpoint kind (thorough, up to 14 generations: all)"}
     return framework.finish(PID, tier, seed, t0, proof, run, rule, tb, assumptions, extra_cov=extra_cov, search_more=search_more)
 
 
